@@ -69,6 +69,8 @@ def run(tier, seed):
     pr = Prover("C20", tier)
     estimate_same_term(pr)
     obs += pr.obs
+    import glue_struct
+    obs += glue_struct.glue_obligations("C20")
     meta = {
         "level": "proof",
         "checker_cmd": "cargo kani -Z stubbing (scratch copy + contracts/kani/{ingest_*,concat,moments_c20}.rs); RS structural check for estimate()",
@@ -83,7 +85,9 @@ def run(tier, seed):
                         "concatenate!: inductive step from arbitrary field states + base (new/default) is complete; Variance::add replaced by a recorder in the step harness",
                         "estimate(): bit-for-bit by Kani for Min/Max; for Mean/Variance/Skewness/Kurtosis/Quantile by term identity of the two symbolic executions (same operations in the same order, deterministic f64)",
                         "generated accessors of concatenate! are checked bit-for-bit for mean/min/max (concat_step); the same token template `self.$field.$statistic()` produces every other accessor (comparing two float divisions bit-for-bit did not terminate in CBMC within 25 min)",
+                        "glue.structural.*: AST-shape contract `for <pat> in iter { e.add(<pat vars>) }` checked on the real source (rsx) for the 4 macro arms and the 12 explicit impls; a body of another shape is advisory-undecided and left to the bounded Kani harness",
                         "Max has no Extend impl in this crate (compile-time fact)"],
-        "explanation": "complete obligations: estimate forwards, concatenate base/step/accessors; bounded: ingestion glue for sequences up to length 3.",
+        "explanation": "complete obligations: estimate forwards, concatenate base/step/accessors, and the structural contract of every FromIterator/Extend body "
+                       "(one add per item, in order, components in order: all lengths); bounded: the Kani agreement harnesses for sequences up to length 3.",
     }
     return obs, meta, None
